@@ -2,8 +2,8 @@ package eng
 
 import (
 	"go/token"
-	"strings"
 	"go/types"
+	"strings"
 
 	"golang.org/x/tools/go/ssa"
 )
@@ -14,12 +14,12 @@ import (
 
 // OriginOpts selects which value-preserving steps are looked through.
 type OriginOpts struct {
-	ThroughSlice     bool // x[a:b] derives from x
-	ThroughFieldLoad bool // *(&x.f) and x.f derive from x (else the field load is a leaf)
-	ThroughConvert   bool // Convert / MakeInterface / ChangeInterface / TypeAssert
+	ThroughSlice     bool                          // x[a:b] derives from x
+	ThroughFieldLoad bool                          // *(&x.f) and x.f derive from x (else the field load is a leaf)
+	ThroughConvert   bool                          // Convert / MakeInterface / ChangeInterface / TypeAssert
 	ThroughCalls     func(c *ssa.Call) []ssa.Value // if non-nil: for a call leaf, operands it derives from (e.g. bound-method / wrapper summaries)
-	ThroughBinOp     bool // arithmetic: both operands
-	ThroughIndex     bool // *(&x[i]) and x[i] derive from x
+	ThroughBinOp     bool                          // arithmetic: both operands
+	ThroughIndex     bool                          // *(&x[i]) and x[i] derive from x
 	// Interproc: a parameter derives from the arguments at every call site of its function (in the repo), and the result of
 	// a call to a repo function with a single resolved callee derives from that callee's returned values. This makes
 	// provenance rules insensitive to helper extraction / inlining.
